@@ -259,11 +259,17 @@ def r09_4(ck):
             n += 1
             p = A.unparse(A.arg_of(c, 0, 'path'))
             apps = []
+            cands = []
             for a in A.calls_in(f.node, 'append'):
-                if A.unparse(A.call_receiver(a)) != 'deletions' or \
-                        not a.args:
-                    continue
-                arg = a.args[0]
+                if A.unparse(A.call_receiver(a)) == 'deletions' and a.args:
+                    cands.append((a, a.args[0]))
+            for s2 in A.walk_no_nested(f.node):
+                if isinstance(s2, ast.Assign) and A.is_name(
+                        s2.targets[0], 'deletions') and isinstance(
+                        s2.value, ast.List) and s2.value.elts:
+                    for e2 in s2.value.elts:
+                        cands.append((s2, e2))
+            for a, arg in cands:
                 has_p = derives(f.node, arg, lambda x: A.unparse(x) == p,
                                 at=a)
                 has_here = derives(
